@@ -50,7 +50,7 @@ fn main() {
         "resolve-faults" => streams::resolve::run(&mut r, n, "faults", &mut out),
         "server" => streams::server::run_serve(&mut r, n, &mut out),
         "reload" => streams::server::run_reload(&mut r, n, &mut out),
-        "wire-deep" => streams::wire::run_deep(&mut out),
+        "wire-deep" => streams::wire::run_deep(n, &mut out),
         other => {
             eprintln!("unknown stream {other}");
             std::process::exit(2);
